@@ -103,8 +103,37 @@ def check(seed_dir, props, tier='quick'):
     return res
 
 
+def full(seed_dir, props):
+    """verify + check, results merged into <seed_dir>/meta.json"""
+    import io
+    import contextlib
+    seed_dir = os.path.abspath(seed_dir)
+    mp = os.path.join(seed_dir, 'meta.json')
+    meta = json.load(open(mp)) if os.path.exists(mp) else {}
+    buf = io.StringIO()
+    with contextlib.redirect_stdout(buf):
+        rc = verify(seed_dir)
+    try:
+        meta['verification'] = json.loads(buf.getvalue())
+    except ValueError:
+        meta['verification'] = {'raw': buf.getvalue()[-500:]}
+    meta['verification']['commands'] = [
+        'git worktree add <scratch> HEAD; git -C <scratch> apply patch.diff',
+        'PYTHONPATH=<scratch>/src /venv/bin/python demo.py   (must fail with the patch, pass without)',
+        'pytest baseline against <scratch>/src compared with /root/.vp/BASELINE.json stable_pass (479 tests)']
+    res = check(seed_dir, props)
+    meta.setdefault('checks', {}).update(res)
+    meta['caught_by'] = sorted(k for k, v in meta['checks'].items() if v['status'] == 'CAUGHT')
+    meta['repo_head'] = subprocess.check_output(['git', '-C', '/repo', 'rev-parse', 'HEAD']).decode().strip()
+    with open(mp, 'w') as f:
+        json.dump(meta, f, indent=1)
+    print(os.path.basename(seed_dir), 'confirmed', meta['verification'].get('confirmed'), 'caught_by', meta['caught_by'])
+
+
 if __name__ == '__main__':
     if sys.argv[1] == 'verify':
         sys.exit(verify(sys.argv[2]))
+    elif sys.argv[1] == 'full':
+        full(sys.argv[2], sys.argv[3:])
     else:
         check(sys.argv[2], sys.argv[3:])
